@@ -36,6 +36,12 @@ def main():
         sh(["git", "-C", REPO, "checkout", "--", "."])
         return 2
     results = {}
+    # evidence files describe runs on the unchanged tree: keep them, the runs below are on a changed one
+    saved = {}
+    for p in props:
+        ep = os.path.join(VERIF, "evidence", p + ".json")
+        if os.path.exists(ep):
+            saved[ep] = open(ep, "rb").read()
     try:
         for p in props:
             t0 = time.time()
@@ -56,6 +62,8 @@ def main():
     finally:
         sh(["git", "-C", REPO, "reset", "-q", "--hard", "HEAD"])
         sh(["git", "-C", REPO, "clean", "-fdq"])
+        for ep, data in saved.items():
+            open(ep, "wb").write(data)
     json.dump({"mutant": mid, "checks": results, "at_repo_commit": sh(["git", "-C", REPO, "rev-parse", "--short", "HEAD"])[1].strip()},
               open(os.path.join(d, "result.json"), "w"), indent=1)
     rc, out = sh(["git", "-C", REPO, "status", "--porcelain"])
